@@ -93,18 +93,21 @@ type readStmt struct {
 	// errAfter: after its reads the statement ends in a runtime error that has nothing to do with
 	// input (division by zero at depth): lines not yet read must still be there afterwards
 	errAfter bool
+	// keep: the line read is kept in a global; recheck: that global is printed again as a record
+	// (a string returned by read() is a value like any other: later reads must not change it)
+	keep, recheck bool
 }
 
 func drawReadStmt(tp *tape.Tape) readStmt {
 	k := 1 + tp.Draw(3)
 	switch tp.Draw(10) {
 	case 8:
-		return readStmt{"{\nrd()\nga = 1 / (2 - 2)\nrd()\n}", 1, true}
+		return readStmt{src: "{\nrd()\nga = 1 / (2 - 2)\nrd()\n}", reads: 1, errAfter: true}
 	case 9:
 		if tp.Bool() {
-			return readStmt{"ga = 7 / (3 - 3)", 0, true}
+			return readStmt{src: "ga = 7 / (3 - 3)", errAfter: true}
 		}
-		return readStmt{fmt.Sprintf("for l <- grd(%d) {\nga = [1, 2][5]\n}", k), 1, true}
+		return readStmt{src: fmt.Sprintf("for l <- grd(%d) {\nga = [1, 2][5]\n}", k), reads: 1, errAfter: true}
 	case 0:
 		return readStmt{src: "rd()", reads: 1}
 	case 1:
@@ -251,11 +254,21 @@ func (C17) reads(tp *tape.Tape) core.Result {
 		stmts[i] = drawReadStmt(tp)
 		key = key.Str(shapeOf(stmts[i].src))
 	}
+	if nst >= 2 && tp.Draw(3) == 0 {
+		stmts[0] = readStmt{src: "gkeep = rd()", reads: 1, keep: true}
+		again := readStmt{src: "write(\"<\" + toa(#gkeep) + \":\" + gkeep + \">\")", recheck: true}
+		stmts = append(stmts, again)
+		if nst >= 3 {
+			stmts = append(stmts[:2], append([]readStmt{again}, stmts[2:]...)...)
+		}
+		r.Inc("R.line_kept_across_later_reads", 1)
+	}
 
 	// ---- expectation
 	nextLine := 0
 	errPending := errLine >= 0
-	conv := "" // "nl" or "bare", decided by the first successful read
+	conv := ""       // "nl" or "bare", decided by the first successful read
+	var kept *string // the record of the line bound to gkeep, once that read succeeded
 	totalReads := 0
 	submit := func(src string) (sess.Outcome, bool) {
 		h.add(src)
@@ -282,6 +295,18 @@ func (C17) reads(tp *tape.Tape) core.Result {
 		o, stop := submit(st.src)
 		if stop {
 			goto done
+		}
+		if st.recheck {
+			if kept == nil {
+				continue // the keeping read found no line: gkeep is unbound, the statement fails, nothing to compare
+			}
+			got, okParse := parseReads(o.Out)
+			if !okParse || len(got) != 1 || got[0] != *kept {
+				r.Violation = &core.Violation{Clause: "R.kept-line-changed", Detail: fmt.Sprintf("statement %d: the line kept from the first read now prints as %q, it was read as %q; %s", si+1, trunc(o.Out, 120), trunc(*kept, 120), envDesc), History: h}
+				goto done
+			}
+			r.Inc("R.kept_line_rechecked", 1)
+			continue
 		}
 		got, okParse := parseReads(o.Out)
 		if !okParse {
@@ -330,6 +355,10 @@ func (C17) reads(tp *tape.Tape) core.Result {
 			w := want[k]
 			if conv == "nl" {
 				w += "\n"
+			}
+			if g == w && st.keep {
+				kk := g
+				kept = &kk
 			}
 			if g != w {
 				r.Violation = &core.Violation{Clause: "R.line-content", Detail: fmt.Sprintf("statement %d read %d returned %q, expected %q; %s", si+1, k+1, trunc(g, 80), trunc(w, 80), envDesc), History: h}
